@@ -299,6 +299,57 @@ def exact_correct(W, H, Rs):
             np.array(G, float))
 
 
+def check_correct_scaled(run, fns, n, m, tvs):
+    """FilterNum!ScalePairs: W := sw W, Rs := sr Rs; exact rational expectation, comparison relative to each result's size"""
+    from fractions import Fraction as Fr
+    cell = f"n={n},m={m}"
+    f = fns.get(("corr", n, m, "dense"), mk_correct(n, m, "dense"), "sqrt_correct", cell, {"tv": tvs[0]})
+    if f is None:
+        run.count("skipped_raises", len(tvs)); return
+    # a bounded, deterministic subset per cell (every scale pair, spread over the vectors)
+    by_sp = {}
+    for t in tvs:
+        by_sp.setdefault(tuple(t["sp"]), []).append(t)
+    pick = []
+    for sp, lst in sorted(by_sp.items()):
+        step = max(1, len(lst) // 12)
+        pick += lst[::step][:12]
+    for t in pick:
+        a, b, c, d = t["sp"]; sw, sr = Fr(a, b), Fr(c, d)
+        W = [[Fr(int(x)) * sw for x in r] for r in t["W"]]; H = [[Fr(int(x)) for x in r] for r in t["H"]]; R = [[Fr(int(x)) * sr for x in r] for r in t["Rs"]]
+        P = [[sum(W[i][k] * W[j][k] for k in range(n)) for j in range(n)] for i in range(n)]
+        G = [[sum(P[i][k] * H[q][k] for k in range(n)) for q in range(m)] for i in range(n)]
+        S = [[sum(H[q][k] * G[k][r_] for k in range(n)) + sum(R[q][k] * R[r_][k] for k in range(m)) for r_ in range(m)] for q in range(m)]
+        if m == 1:
+            det, adj = S[0][0], [[Fr(1)]]
+        else:
+            det = S[0][0] * S[1][1] - S[0][1] * S[1][0]; adj = [[S[1][1], -S[0][1]], [-S[1][0], S[0][0]]]
+        if det <= 0:
+            continue
+        K = [[sum(G[i][q] * adj[q][r_] for q in range(m)) / det for r_ in range(m)] for i in range(n)]
+        Pp = [[P[i][j] - sum(K[i][q] * G[j][q] for q in range(m)) for j in range(n)] for i in range(n)]
+        tofl = lambda M: np.array([[float(x) for x in r] for r in M])
+        try:
+            o = batch_call(f, [vecs(tofl(R)[None]), vecs(tofl(H)[None]), vecs(tofl(W)[None])])
+            Wp, Kg, Ss = unvec(o[0], n, n)[0], unvec(o[1], n, m)[0], unvec(o[2], m, m)[0]
+        except Exception as ex:     # noqa
+            run.violation(f"sqrt_correct/scaled/raises/{cell}", f"{type(ex).__name__}: {str(ex)[-300:]}", {"tv": t}); continue
+        run.count("evaluations"); run.count("scaled_evaluations")
+        # K = P H^T S^-1 is only as well determined as S is conditioned (parallel measurement rows with a tiny R make S nearly
+        # singular: ANY implementation loses cond(S) * eps there); W+ and Ss come out of the orthogonal factorisation itself
+        smax = max(abs(x) for r in S for x in r)
+        kappa = float(smax * smax / abs(det)) if m == 2 else 1.0
+        for name, got, want in (("Wp", Wp @ Wp.T, tofl(Pp)), ("K", Kg, tofl(K)), ("Ss", Ss @ Ss.T, tofl(S))):
+            if name == "K" and kappa > 1e3:
+                continue
+            ref = float(np.max(np.abs(want)))
+            bad = (not np.all(np.isfinite(got))) or (ref > 0 and float(np.max(np.abs(got - want))) > 1e-6 * ref)
+            if bad:
+                run.violation(f"sqrt_correct/scaled/{name}/{cell}", {"Wp": "W+ W+^T differs from (I - K H) P", "K": "K differs from P H^T S^-1",
+                              "Ss": "Ss Ss^T differs from H P H^T + Rs Rs^T"}[name] + " when the measurement is far more accurate than the prior "
+                              "(relative to the size of the result)", {"tv": t, "sw": float(sw), "sr": float(sr), "got": got.tolist(), "want": want.tolist()})
+
+
 def check_correct(run, fns, n, m, Wm, Hm, Rm, Sx, Kx, Ppx, items, tag, shape="dense", rh_cols=None):
     cell = f"n={n},m={m}" + ("" if shape == "dense" else f",{shape}")
     f = fns.get(("corr", n, m, shape), mk_correct(n, m, shape), "sqrt_correct", cell, {tag: items[0]})
@@ -390,6 +441,8 @@ def replay_tlc(run, fns, by):
             args = (Wm, Hm, Rm, mats(tvs, "S"), mats(tvs, "K", rmat), mats(tvs, "Pp", rmat), tvs, "tv")
             check_correct(run, fns, n, m, *args)
             check_correct(run, fns, n, m, *args, shape="Wdense")       # second configuration: dense symbolic W
+        elif op == "correct_scaled":
+            check_correct_scaled(run, fns, n, m, tvs)
         else:
             raise MachineryError(f"unknown op {op}")
 
